@@ -1,12 +1,16 @@
 (* C04 — barriers on concurrent queues exclude and order like a writer lock.
-   PARTIAL: proved are guards of the generated bodies, for all 2^64 words; the width-accounting invariant and the
-   ordering statements over all interleavings are not proved (DESIGN.md §6.0); the property is decided on the
-   implementation by the stress oracle (barrier/non-barrier overlap counters, per-producer order around
-   barriers, a flood that uses up the whole width behind a barrier followed by a sync reader and a barrier). *)
+   Proved over ALL interleavings of the model Model/CLane.v (one concurrent queue of any width 2..4094, any number of
+   threads; every dq_state read-modify-write is the body generated from the source): 1. width accounting,
+   2. exclusion, 3. order (FIFO around barriers for queued items, acquisition order for the fast paths),
+   4. no stuck state; plus the word-level guards of the generated bodies for all 2^64 words (first section).
+   PARTIAL where the name says so: C04_barrier_orders_fastpath_partial (the dispatch_barrier_sync fast path against an
+   item whose push completed but which is still queued).
+   The model is tied to the library by the site lists (C04_model_sites_match) and by the trace check of lib/props/c04.py
+   (C04_trace_judges_sound is the soundness of its judges). *)
 From Coq Require Import ZArith Bool List.
 From Verif Require Import Word Gen_consts Gen_dqstate Suspend_proofs Lane_iface.
 From Verif Require Import DqFields Gen_lanesites CLane CLaneJudge CLane_inv CLane_main.
-From Verif Require Import CLane_order.
+From Verif Require Import CLane_order CLane_live.
 From Coq Require Import Sorted.
 Import ListNotations.
 Local Open Scope Z_scope.
@@ -195,3 +199,44 @@ Example C04_ordering_nonvacuous :
   (exists s, reach 4 s /\ pushed s = [3; 2] /\ kinds s 2 = true /\ pcs s 7 = R_incall 3 /\
              started s = [3; 2; 1; 0] /\ finished s = [2; 1; 0]).
 Proof. exact ordering_nonvacuous. Qed.
+
+(* ---------------------------------------------------------------------------------------------------------------
+   4. no stuck state ("no lost barrier").  A reachable state in which every thread has returned or is parked in the wait
+   of a sync call, no parked thread can continue, the lane does not sit on its root queue and no redirected item is
+   pending, is completely drained: empty list, nobody parked, lock / width / enqueued bit / DIRTY / PENDING_BARRIER all
+   clear (the idle word), and every item ever submitted has finished.  Behind it (Proofs/CLane_live.v, Inv3): whenever
+   the list is not empty somebody is responsible for it (the lane is enqueued or being pushed, the drain lock is held,
+   readers are in flight -- the last one takes the lock --, or an enqueuer still owes its wakeup); a lock owner that gives
+   the lock back after seeing an empty list does so only with DIRTY clear; a granted waiter is woken; a parked thread's
+   item is on the list or in the hands of the lock owner. *)
+Theorem C04_no_stuck_state : forall W s, 2 <= W <= 4094 -> reach W s ->
+  (forall t, resting (pcs s t)) -> (forall t, valid_tid t -> gstep W s t = None) -> rootq s = 0 -> rq s = [] ->
+  lst s = [] /\ (forall t, pcs s t = Idle) /\ lockh s = None /\ holders s = [] /\ tokh s = None /\
+  (forall i, 0 <= i < nextid s -> In i (finished s)) /\
+  (let r := dec (st s) in f_owner r = 0 /\ f_enq r = 0 /\ f_d r = 0 /\ f_pb r = 0 /\ f_ib r = 0 /\ f_wq r = 4096 - W).
+Proof. exact stuck_state_is_drained. Qed.
+Print Assumptions C04_no_stuck_state.
+
+(* the hypotheses are satisfiable after real work: the run of C04_ordering_nonvacuous continued until nothing moves *)
+Example C04_no_stuck_nonvacuous :
+  exists s, reach 4 s /\ (forall t, resting (pcs s t)) /\ (forall t, valid_tid t -> gstep 4 s t = None) /\ rootq s = 0 /\ rq s = [] /\
+            nextid s = 4 /\ finished s = [3; 2; 1; 0] /\ st s = st (init_state 4).
+Proof. exact drained_nonvacuous. Qed.
+
+(* no thread is ever stuck in the middle of an operation: every program point other than the parked wait of a sync call
+   has an enabled step in every reachable state (the generated rmw bodies never crash or refuse there, the list is never
+   empty where a pop is due) *)
+Theorem C04_no_thread_stuck : forall W s t, 2 <= W <= 4094 -> reach W s -> valid_tid t -> ~ resting (pcs s t) ->
+  exists s', gstep W s t = Some s'.
+Proof. exact nonresting_enabled. Qed.
+Print Assumptions C04_no_thread_stuck.
+
+(* hence the resting hypothesis of C04_no_stuck_state is redundant: a state in which no thread at all can take a step
+   (and the root queue holds neither the lane nor a redirected item) is completely drained *)
+Theorem C04_terminal_state_is_drained : forall W s, 2 <= W <= 4094 -> reach W s ->
+  (forall t, valid_tid t -> gstep W s t = None) -> rootq s = 0 -> rq s = [] ->
+  lst s = [] /\ (forall t, pcs s t = Idle) /\ lockh s = None /\ holders s = [] /\ tokh s = None /\
+  (forall i, 0 <= i < nextid s -> In i (finished s)) /\
+  (let r := dec (st s) in f_owner r = 0 /\ f_enq r = 0 /\ f_d r = 0 /\ f_pb r = 0 /\ f_ib r = 0 /\ f_wq r = 4096 - W).
+Proof. exact terminal_state_is_drained. Qed.
+Print Assumptions C04_terminal_state_is_drained.
